@@ -26,6 +26,11 @@ inductive TSOp
       `__init__` runs); a miss propagates the exception out of `super().__call__` before anything
       is stored, so nothing is registered and the half-built object is never seen again -/
   | constructFail (cls args : Nat)
+  /-- a construction whose `__init__` itself calls `clear_true_singleton()` (a re-entrant global
+      clear): on a miss `__init__` runs, the table is REPLACED by an empty one, and only then is
+      the new object filed — `tbl[cls] = <construction>` evaluates the construction first and
+      looks the (class-level) table up afterwards, so the object lands in the new table -/
+  | constructClearing (cls args : Nat)
   | clear (cls : Option Nat)          -- `clear_true_singleton(cls)`; `none` = clear all
   deriving Repr, DecidableEq
 
@@ -46,6 +51,11 @@ def TS.step (s : TS) : TSOp → TS × Option Nat
     match lookup c s.inst with
     | some i => (s, some i)
     | none => (s, none)                       -- the exception reaches the caller
+  | .constructClearing c a =>
+    match lookup c s.inst with
+    | some i => (s, some i)
+    | none =>
+      ({ inst := [(c, s.next)], next := s.next + 1, inits := s.inits ++ [(s.next, c, a)] }, some s.next)
   | .clear (some c) => ({ s with inst := s.inst.filter (fun p => p.1 != c) }, none)
   | .clear none => ({ s with inst := [] }, none)
 
